@@ -525,6 +525,54 @@ def abort_rows(ctx, rule):
     return outs
 
 
+def lock_expect_tl(ev, o):
+    """`lock().expect(..)` fails only on a poisoned mutex, i.e. after a panic inside a critical section;
+    critical sections are checked panic-free by critical_sections_panic_free"""
+    if ev["k"] == "call" and "panic_if" in ev:
+        _, t, bad = ev["panic_if"]
+        if isinstance(t, tuple) and t[0] == "call" and t[1] == "std::sync::Mutex::<T>::lock":
+            return "mutex cannot be poisoned: critical sections are panic-free (C10.R4)"
+    return None
+
+
+def critical_sections_panic_free(ctx, rule):
+    """no reachable panic site between acquiring the shared mutex and releasing it (so the mutex is never poisoned and
+    `lock().expect(..)` cannot fail); the byte-counter asserts are discharged by the accounting rules C08.R3/R4"""
+    R = roles(ctx)
+    sites = calls_named(ctx.facts, "std::sync::Mutex::<T>::lock")
+    fns = sorted({b["name"] for b, i, t in sites})
+    n = 0
+    for fn in fns:
+        outs = ctx.px(fn, inline=lambda c, d: True, key="all")
+        all_sites = CEN.census(ctx, outs, typelevel=lock_expect_tl)
+        inside = set()
+        for o in outs:
+            live = False
+            for e in o.events:
+                if e["k"] == "call" and e["callee"].get("path") == "std::sync::Mutex::<T>::lock":
+                    live = True
+                    continue
+                if (e["k"] == "drop" and "MutexGuard" in e.get("ty", "")) or \
+                        (e["k"] == "call" and e["callee"].get("path") == "std::mem::drop" and "MutexGuard" in (e["argops"][0].get("place", {}).get("ty", {}).get("s") or "")):
+                    live = False
+                    continue
+                if live and e["k"] in ("assert", "call"):
+                    inside.add((e["fn"], e["bb"]))
+        for key, s in sorted(all_sites.items()):
+            if (s.fn, s.bb) not in inside:
+                continue
+            n += 1
+            counter = s.kind == "assert" and s.op in ("Overflow(Sub)", "Overflow(Add)") and all(R["bytes_f"] in f[1] for f in s.failed)
+            dbg = s.kind == "panic-call" and "assert_failed" in s.op
+            if s.failed and not (counter or dbg):
+                ctx.violation(rule, "%s|%s" % (rule, key), "a panic site inside a critical section is not discharged (it would poison the shared mutex): %s" % s.failed[0][0], where=F.loc(s.span))
+            elif s.failed:
+                ctx.ok(rule, "%s: queued-bytes counter site inside the critical section (accounting rules C08.R3/R4)" % key, nontrivial=False)
+            else:
+                ctx.ok(rule, "%s inside a critical section: %s" % (key, sorted(s.how)[:2]))
+    ctx.floor(rule, n, 2, what="panic-capable sites inside critical sections")
+
+
 def lock_discipline(ctx, rule):
     """C10.R4: one mutex, no nested acquisition, five lock sites"""
     R = roles(ctx)
@@ -642,7 +690,7 @@ def write_rules(ctx, r1, r2):
             for r in rels:
                 st.cons.rel.append(r)
         outs = ctx.px(R["write"], inline=lambda c, d: True, setup=setup, key="w")
-        sites = CEN.census(ctx, outs)
+        sites = CEN.census(ctx, outs, typelevel=lock_expect_tl)
         for key, s in sorted(sites.items()):
             if s.failed and s.kind == "assert" and s.op == "Overflow(Add)" and "flush" in s.fn and all("ready" in f[1] or "state" in f[1] for f in s.failed):
                 ctx.ok(r2, "write (%s): %s -- queued-bytes counter: the sum of the lengths of distinct live Vec<u8> allocations cannot exceed the address space" % (label, key), nontrivial=False)
